@@ -189,7 +189,7 @@ Qed.
 (* ---------- the in-memory side, position by position ---------- *)
 Definition cell_apply (x : sval) (w : wcell) : wcell :=
   let c1 := if sv_has x then (sv_t x, sv_v x, @None bytes) else fst w in
-  let c2 := if is_nil (sv_f x) then c1 else (let '(_, v, _) := c1 in (3, v, Some (sv_f x))) in
+  let c2 := if is_nil (sv_f x) then c1 else (let '(t, v, _) := c1 in (3, (if t =? 2 then [] else v), Some (sv_f x))) in
   (c2, if 0 <? sv_style x then sv_style x else snd w).
 
 Lemma fold_at_mem_cell col row x c r w :
